@@ -84,6 +84,26 @@ package tsi
 //@   call .Seek with kb.B
 //@     requires [skip_only_accepted_value] ex
 
+// One stable id per series: an id is (logical clock of this process life, 24 bits) . (sequence number, 40 bits),
+// so ids handed out in different lives of the index never collide even though the sequence restarts.
+//@ func (*IndexBuilder).GenerateUUID
+//@   mode bv
+//@   requires iBuilder != nil
+//@   ghost id uint64 = 0
+//@   ghost k int = 0
+//@   call AddUint64
+//@     set id = ret0
+//@   call append
+//@     requires [byte_layout] len(arg1) == 1 && (k == 0 ==> arg1[0] == byte(iBuilder.logicalClock >> 16)) && (k == 1 ==> arg1[0] == byte(iBuilder.logicalClock >> 8)) && (k == 2 ==> arg1[0] == byte(iBuilder.logicalClock)) && (k == 3 ==> arg1[0] == byte(id >> 32)) && (k == 4 ==> arg1[0] == byte(id >> 24)) && (k == 5 ==> arg1[0] == byte(id >> 16)) && (k == 6 ==> arg1[0] == byte(id >> 8)) && (k == 7 ==> arg1[0] == byte(id))
+//@     set k = k + 1
+//@   call Uint64
+//@     requires [eight_bytes] k == 8
+
+// Pruning candidates against the remaining tag filters: EVERY bucket of the candidate set is collected (the
+// callback given to Set.ForEach returns true = continue), otherwise ids of later buckets bypass the filters.
+//@ func (*indexSearch).doPrune$1
+//@   ensures [visit_every_bucket] result
+
 //@ func (*MergeSetIndex).GetDeletedTSIDs
 //@   trusted atomic load of the current deleted set
 //@   assigns nothing
